@@ -17,6 +17,7 @@ import (
 	"sync/atomic"
 
 	"verif/chk"
+	"verif/e3/rowdec"
 	"verif/e3/util"
 	"verif/ref"
 )
@@ -203,6 +204,8 @@ func newStats() *stats {
 
 // ---- one case ----------------------------------------------------------------------
 
+var unsignedFailures atomic.Int64
+
 // one executes one value; digits is the p-digit string (integer digits then
 // fraction digits).
 func one(r *chk.Run, pr *pair, neg bool, digits string, st *stats) {
@@ -210,6 +213,14 @@ func one(r *chk.Run, pr *pair, neg bool, digits string, st *stats) {
 	class := pr.inputClass(digits)
 	st.total[class]++
 	if util.CheckCell(c.Raw, ref.TNewDecimal, pr.meta, false, c.Text) == "" {
+		// DECIMAL UNSIGNED is stored exactly like DECIMAL: the caller's
+		// signedness flag (true for such a column) must not change the text
+		if why := util.CheckCellAtEnd(c.Raw, ref.TNewDecimal, pr.meta, true, c.Text); why != "" && unsignedFailures.Add(1) <= 64 {
+			in := util.CellInput{Type: ref.TNewDecimal, Meta: pr.meta, Unsigned: true, Raw: c.Raw, Want: c.Text, Note: "unsigned-flag"}
+			r.Report(chk.Violation{Key: "decimal:unsigned-column", Kind: "cell", Replay: in,
+				What:    fmt.Sprintf("DECIMAL(%d,%d) UNSIGNED column (signedness flag true), raw % x: %s", pr.p, pr.s, c.Raw, why),
+				Recheck: func() string { return util.CheckCellAtEnd(in.Raw, in.Type, in.Meta, true, in.Want) }})
+		}
 		return
 	}
 	// classify the failure (first failing offset)
@@ -269,6 +280,15 @@ func reportAll(r *chk.Run, st *stats) {
 }
 
 func replay(kind string, input json.RawMessage) (bool, string) {
+	if kind == "rows" {
+		// re-run the rows half: it reports the (p, s, kind) again if it still fails
+		var in map[string]int
+		if err := json.Unmarshal(input, &in); err != nil {
+			return false, err.Error()
+		}
+		why := rowsOne(in["p"], in["s"], in["kind"])
+		return why != "", fmt.Sprintf("DECIMAL(%d,%d) rows event kind %d: %s", in["p"], in["s"], in["kind"], why)
+	}
 	if kind == "walk" {
 		var w util.WalkInput
 		if err := json.Unmarshal(input, &w); err != nil {
@@ -398,8 +418,79 @@ func walks(r *chk.Run) int64 {
 	return n
 }
 
+// rowsHalf: every (precision, scale) in rows events of two rows and in an
+// UPDATE: the cut between rows is made by the per-type length rule, which a
+// value decoder alone does not exercise.
+func rowsHalf(r *chk.Run) int64 {
+	w, why := rowdec.NewWire(ref.Cfg{RowsV2: true, ServerID: 7, ServerVer: "5.7.20-log"})
+	if why != "" {
+		chk.Fatalf("C11 rows half: %s", why)
+	}
+	var n int64
+	for p := 1; p <= ref.DecimalMaxPrecision; p++ {
+		for sc := 0; sc <= ref.DecimalMaxScale && sc <= p; sc++ {
+			p, sc := p, sc
+			val := func(neg bool, d byte) ref.Cell {
+				ip := strings.Repeat(string([]byte{d}), p-sc)
+				fp := strings.Repeat(string([]byte{d + 1}), sc)
+				return ref.DecimalCell(p, sc, neg, ip, fp)
+			}
+			t := &ref.Table{ID: 0x77, Flags: 1, DB: "d", Name: "t", Cols: []ref.Column{ref.ColInt(ref.TLong, "id", false), ref.ColDecimal("amount", p, sc), ref.ColDecimal("fee", 10, 2)}}
+			tm, why := w.TableMap(t)
+			if why != "" {
+				chk.Fatalf("C11 rows half: %s", why)
+			}
+			img := func(id int64, neg bool, d byte) ref.Image {
+				return ref.Image{ref.VInt(ref.TLong, id, false), val(neg, d), ref.VDecimal(10, 2, "12345678.90")}
+			}
+			for _, e := range []ref.RowsEvent{
+				{Kind: ref.RowWrite, Table: t, Flags: 1, Rows: []ref.RowChange{{After: img(8, false, '1')}, {After: img(9, true, '7')}}},
+				{Kind: ref.RowUpdate, Table: t, Flags: 1, Rows: []ref.RowChange{{Before: img(8, true, '3'), After: img(8, false, '8')}}},
+			} {
+				n++
+				if m := rowdec.Check(w, tm, e, rowdec.Opt{Text: true}); m.Bad() {
+					kind := e.Kind
+					r.Report(chk.Violation{Key: "decimal:rows:" + m.Class, Kind: "rows",
+						What:   fmt.Sprintf("table (INT, DECIMAL(%d,%d), DECIMAL(10,2)), rows event kind %d: %s", p, sc, kind, m.Why),
+						Replay: map[string]int{"p": p, "s": sc, "kind": int(kind)},
+						Recheck: func() string {
+							ev := e
+							return rowdec.Check(w, tm, ev, rowdec.Opt{Text: true}).Why
+						}})
+				}
+			}
+		}
+	}
+	return n
+}
+
+// rowsOne re-executes one case of the rows half.
+func rowsOne(p, sc, kind int) string {
+	w, why := rowdec.NewWire(ref.Cfg{RowsV2: true, ServerID: 7, ServerVer: "5.7.20-log"})
+	if why != "" {
+		return why
+	}
+	val := func(neg bool, d byte) ref.Cell {
+		return ref.DecimalCell(p, sc, neg, strings.Repeat(string([]byte{d}), p-sc), strings.Repeat(string([]byte{d + 1}), sc))
+	}
+	t := &ref.Table{ID: 0x77, Flags: 1, DB: "d", Name: "t", Cols: []ref.Column{ref.ColInt(ref.TLong, "id", false), ref.ColDecimal("amount", p, sc), ref.ColDecimal("fee", 10, 2)}}
+	tm, why := w.TableMap(t)
+	if why != "" {
+		return why
+	}
+	img := func(id int64, neg bool, d byte) ref.Image {
+		return ref.Image{ref.VInt(ref.TLong, id, false), val(neg, d), ref.VDecimal(10, 2, "12345678.90")}
+	}
+	e := ref.RowsEvent{Kind: ref.RowWrite, Table: t, Flags: 1, Rows: []ref.RowChange{{After: img(8, false, '1')}, {After: img(9, true, '7')}}}
+	if ref.RowKind(kind) == ref.RowUpdate {
+		e = ref.RowsEvent{Kind: ref.RowUpdate, Table: t, Flags: 1, Rows: []ref.RowChange{{Before: img(8, true, '3'), After: img(8, false, '8')}}}
+	}
+	return rowdec.Check(w, tm, e, rowdec.Opt{Text: true}).Why
+}
+
 func run(r *chk.Run) {
 	r.Eval(walks(r))
+	r.Eval(rowsHalf(r))
 	// The live heap of this check is tiny and every decode allocates: with the
 	// default pacing the collector would cycle continuously and serialise the
 	// workers. Collect only when 256 MiB of garbage has accumulated.
